@@ -60,12 +60,16 @@ def run(tier):
                 if other not in ("misplaced", "unknown_dedicated", "duplicate"):
                     continue
                 first, second = "no_trait", other
-            fa = faults.INJECTORS[first](it, g, g.pick(faults.POSITIONS), g.pick(["bare", "o2o"]))
+            # in a tuple struct an insertion shifts the indices the first fault's message names: append there
+            tup = it.kind == "struct" and it.shape == "tuple"
+            fa = faults.INJECTORS[first](it, g, "last" if tup else g.pick(faults.POSITIONS), g.pick(["bare", "o2o"]))
             if fa is None:
                 continue
-            fb = faults.INJECTORS[second](it, g, g.pick(faults.POSITIONS), g.pick(["bare", "o2o"]))
+            fb = faults.INJECTORS[second](it, g, "last" if tup else g.pick(faults.POSITIONS), g.pick(["bare", "o2o"]))
             if fb is None:
                 continue
+            if fa.cls == fb.cls == "duplicate" and fa.sub.split("_")[:2] == fb.sub.split("_")[:2]:
+                continue  # the second injection replaces the instructions of the first
             if first == "no_trait" and any(x.kind == "trait" for x in it.attrs):
                 continue
             if fa.cls == "err_type" and fb.cls == "err_type" and "existing" in fa.sub + fb.sub:
